@@ -65,7 +65,8 @@ func ZZ_Inbox() {
 			payload[t][j] = zzrt.NondetInt64("payload")
 		}
 	}
-	if prop == 2 {
+	if prop == 2 || prop == 1 {
+		// prop 1: "received in that order" presupposes that consecutive Invokes are ordered by happens-before
 		zzrt.RaceDetect(true)
 		zzrt.RaceWatch(true)
 	}
